@@ -24,7 +24,7 @@ func init() {
 		Level: "exploration",
 		Rule: "GUIDs: (i) all 65536 GUIDs whose byte i is 0x0i or 0xAi; (ii) each of the 16 byte positions x all 256 values x 3 backgrounds; (iii) Data2 and Data3 exhaustively, Data1 over all values with <=2 non-zero nibbles; (iv) every GUID constant of the library; " +
 			"all ordered pairs of a 600-element subset for equality. Oracle: canonical lower-case text from an independent formatter, text/bytes/struct round trips (both letter cases), big-endian byte form, little-endian wire layout inside encoded structures (both directions). " +
-			"Strings: all strings of length <=3 over 12 boundary code points, every BMP scalar value and every plane boundary individually, long strings; oracle unicode/utf16: encode == UTF-16LE + 0000, decode(encode) == s, decode with trailing bytes, every unterminated prefix is an error. " +
+			"Strings: all strings of length <=3 over 14 boundary code points (incl. code units whose low byte is 00), a non-BMP character and a U+3000 slid through every offset 0..300 of long strings, every BMP scalar value and every plane boundary individually, long strings; oracle unicode/utf16: encode == UTF-16LE + 0000, decode(encode) == s, decode with trailing bytes, every unterminated prefix is an error. " +
 			"non-trivial = every oracle clause was evaluated for the value; distinct = distinct GUID / string",
 		Assumptions: []string{"2^128 GUIDs are covered only through per-byte and per-field local patterns (width, padding and byte-order bugs are local)", "Go's unicode/utf16 as string reference"},
 		Units: func(tier string) []string {
@@ -99,6 +99,22 @@ func c17Guid(c *hx.Ctx, g util.EFIGUID, wireToo bool) {
 		if r := util.StringToGUID(strings.ToUpper(want)); r == nil || *r != g {
 			bad("parsing the upper-case text does not return the GUID", r, g)
 			return
+		}
+		// a returned GUID belongs to the caller: changing it must not change what the next parse returns
+		if r := util.StringToGUID(want); r != nil {
+			r.Data1 ^= 0xffffffff
+			r.Data4[7] ^= 0xff
+			if r2 := util.StringToGUID(want); r2 == nil || *r2 != g {
+				bad("parsing the same text again after the caller changed the previous result returns another GUID", r2, g)
+				return
+			}
+		}
+		if r := util.BytesToGUID(refBE(g)); r != nil {
+			r.Data2 ^= 0xffff
+			if r2 := util.BytesToGUID(refBE(g)); r2 == nil || *r2 != g {
+				bad("parsing the same bytes again after the caller changed the previous result returns another GUID", r2, g)
+				return
+			}
 		}
 		be := refBE(g)
 		if b := util.GUIDToBytes(&gg); !bytes.Equal(b, be) {
@@ -217,7 +233,7 @@ func c17Str(c *hx.Ctx, s string) {
 	}
 }
 
-var c17CodePoints = []rune{'A', 'z', '0', 0xE9, 0x7FF, 0x800, 0xFFFD, 0xFEFF, 0xFFFF, 0x10000, 0x10FFFF, 0x1F600}
+var c17CodePoints = []rune{'A', 'z', '0', 0xE9, 0x100, 0x7FF, 0x800, 0x3000, 0xFFFD, 0xFEFF, 0xFFFF, 0x10000, 0x10FFFF, 0x1F600}
 
 func c17Run(c *hx.Ctx, tier, unit string) {
 	bgs := [][16]byte{{}, {0xff, 0xff, 0xff, 0xff, 0xff, 0xff, 0xff, 0xff, 0xff, 0xff, 0xff, 0xff, 0xff, 0xff, 0xff, 0xff},
@@ -357,5 +373,12 @@ func c17Run(c *hx.Ctx, tier, unit string) {
 			}
 		}
 		c17Str(c, "")
+		// a surrogate pair / a code unit with a zero low byte at every offset of a long string
+		// (chunked or alignment-blind decoders fail only at particular offsets)
+		for _, ch := range []string{"\U0001F600", "\u3000", "\u0100"} {
+			for off := 0; off <= 300; off++ {
+				c17Str(c, strings.Repeat("a", off)+ch+strings.Repeat("b", 300-off))
+			}
+		}
 	}
 }
